@@ -18,11 +18,55 @@ EXPLANATION = (
     "Decided: R20.1 the main-path `++_next_receive_seq` of Session::process is control-dependent on a decision that mentions the "
     "message's sequence number (comparison with the expected number, or the enforce/sequence_check verdict); R20.2 "
     "handle_sequence_reset: case split on NewSeqNo vs expected covers >=/< ; '>=' assigns expected := NewSeqNo - 1 and process() adds "
-    "exactly 1 afterwards; '<' only throws; R20.3 in sequence_check no throw is reachable in the seqnum > expected case; R20.4 a PossDup replay is refused only for OrigSendingTime strictly after SendingTime (rule of C19 R19.2). "
+    "exactly 1 afterwards; '<' only throws; R20.3 in sequence_check no throw is reachable in the seqnum > expected case; R20.6 explicit start numbers: the initiator applies the parameters of this start() call, _req_next_* are stored only on the acceptor path (rule of C16 R16.5); R20.5 the acceptor's reset decision reads the VALUE of ResetSeqNumFlag; R20.4 a PossDup replay is refused only for OrigSendingTime strictly after SendingTime (rule of C19 R19.2). "
     "NOT decided: histories, replays, delivery.")
 
 S = 'FIX8::Session::'
 RECV = S + '_next_receive_seq'
+
+
+def seqreset_compare_rule(ctx, prog, RID):
+    """handle_sequence_reset judges NewSeqNo against the EXPECTED inbound number (enforce() skips sequence_check for SequenceReset, so this handler is
+    the only place a stale reset can be refused)"""
+    f = prog.fn1(S + 'handle_sequence_reset')
+    ctx.saw(f)
+    cmp_ = []
+    for (b, a, pol) in q.branches(f, lambda a: a.strip(casts=True).k == 'BinaryOperator' and a.strip(casts=True).op in ('<', '>', '<=', '>=') and
+                                  any(q.reads_local_of_field(x, 36) for x in a.strip(casts=True).children)):
+        t = a.strip(casts=True)
+        other = [x for x in t.children if not q.reads_local_of_field(x, 36)]
+        cmp_.append((t, other[0] if other else None))
+    ctx.need(cmp_, 'handle_sequence_reset: no comparison of NewSeqNo(36) found')
+    bad = [(t, o) for (t, o) in cmp_ if o is None or not q.reads_member(o, RECV)]
+    ctx.check(not bad, RID, S + 'handle_sequence_reset#newseqno-vs-expected', cmp_[0][0].loc,
+              'NewSeqNo is compared with the expected inbound number',
+              'NewSeqNo is compared with `%s`, not with the expected inbound number: a stale SequenceReset (MsgSeqNum 2, NewSeqNo 3 after 2..5 were consumed) winds the expected '
+              'number back and already delivered messages are accepted again' % (bad[0][1].text() if bad and bad[0][1] is not None else '?'))
+
+
+def reset_by_value_rule(ctx, prog, RID):
+    """the acceptor resets its numbers only for ResetSeqNumFlag = Y: the decision reads the field's VALUE, not merely its presence"""
+    f = prog.fn1(S + 'handle_logon')
+    ctx.saw(f)
+    loc = None
+    for n in f.all_nodes():
+        if n.k == 'DeclStmt':
+            for dd, init in n.r.get('decls', []):
+                if init >= 0 and f.tu.types[f.tu.decls[dd]['t']]['k'] == 'bool':
+                    e = f.node(init)
+                    if any(c.callee_qp == 'FIX8::MessageBase::have' and c.args and c.args[0].strip(casts=True).value == 141 for c in q.calls_in(e)) or \
+                            any(q.field_num((x.type or {}).get('c', '')) == 141 for x in e.walk()) or \
+                            any(x.k == 'DeclRefExpr' and x.decl and q.field_num(f.tu.types[x.decl['t']]['c']) == 141 for x in e.walk()):
+                        loc = (dd, e)
+    ctx.need(loc is not None, 'handle_logon: the reset decision (a bool initialised from ResetSeqNumFlag 141) not found')
+    e = loc[1]
+    # a value read: Field<...,141>::get() / operator()() somewhere in the expression
+    reads_value = any(x.is_call and x.callee is not None and x.callee.get('n') in ('get', 'operator()') and (x.callee.get('rec') or '').startswith('FIX8::Field<') and
+                      q.field_num(x.callee.get('rec') or '') == 141 for x in e.walk())
+    ctx.check(reads_value, RID, S + 'handle_logon#reset.by-value', e.loc,
+              'the reset decision reads the value of ResetSeqNumFlag',
+              'the reset decision `%s` only tests whether ResetSeqNumFlag is present: a Logon carrying an explicit 141=N resets both sequence numbers to 1 (and purges the '
+              'store), the counterparty continues at its true number and the session ends with InvalidMsgSequence' % e.text())
 
 
 def run(ctx):
@@ -146,5 +190,8 @@ def run(ctx):
               [t.loc for t in thr])
     # R20.4 replayed messages (PossDup, number below the expected one) are refused only when OrigSendingTime is strictly later than SendingTime
     c19.origsendingtime_rule(ctx, sc, 'R20.4')
+    reset_by_value_rule(ctx, prog, 'R20.5')
+    from . import c16 as _c16
+    _c16.start_numbers_rule(ctx, prog, 'R20.6')
     ctx.floor('R20.4', 2)
     ctx.floor('R20.2', 4)
